@@ -4,6 +4,7 @@ import collections
 import decimal
 import fractions
 import itertools
+import json
 import os
 import pickle
 import shutil
@@ -21,14 +22,75 @@ from ..plain import h64
 from ..runner import Acc, CaseFailure, hyp_search, minimize
 
 import numpy as np
-from synced_collections import numpy_utils
 from synced_collections import validators as V
 from synced_collections.backends import collection_json as cj
 from synced_collections.data_types import synced_collection as sc_mod
 from synced_collections.data_types import synced_dict as sd_mod
 from synced_collections.data_types import synced_list as sl_mod
 
-assert numpy_utils.NUMPY, "numpy must be importable for C19 (./setup.sh installs it into .deps)"
+
+LATE_NUMPY_SCRIPT = r"""
+import sys, json, os, tempfile
+order = sys.argv[1]
+if order == "numpy_first":
+    import numpy as np
+from synced_collections import validators as V
+from synced_collections.backends.collection_json import JSONDict, JSONList, JSONAttrDict
+d = tempfile.mkdtemp(dir=sys.argv[2])
+if order == "library_first":
+    # the library processes ordinary values before the application imports numpy
+    V.json_format_validator({"a": [1, "x", None]})
+    w = JSONDict(os.path.join(d, "warm.json")); w["k"] = [1, {"z": 2}]; w()
+    wl = JSONList(os.path.join(d, "warml.json")); wl.append(1); wl()
+    import numpy as np
+out = {}
+vals = {"int64": lambda: np.int64(3), "float32": lambda: np.float32(1.5), "bool_": lambda: np.bool_(True),
+        "arr0d": lambda: np.array(7), "arr1d": lambda: np.array([1, 2, 3]), "arr2d": lambda: np.array([[1.5], [2.5]])}
+def attempt(f):
+    try:
+        r = f()
+        return ["ok", json.loads(json.dumps(r, default=repr))]
+    except BaseException as e:
+        return ["raise", type(e).__name__]
+for name, mk in vals.items():
+    out[name + ".validator"] = attempt(lambda: V.json_format_validator({"v": mk()}))
+    for cls, kind in ((JSONDict, "d"), (JSONAttrDict, "d"), (JSONList, "l")):
+        fn = os.path.join(d, f"{name}_{cls.__name__}.json")
+        def store():
+            o = cls(fn)
+            if kind == "d":
+                o["v"] = mk()
+            else:
+                o.append(mk())
+            return [o(), json.load(open(fn))]
+        out[name + "." + cls.__name__] = attempt(store)
+    out[name + ".list_reset"] = attempt(lambda: (lambda o: (o.reset(mk()) if name.startswith("arr") and name != "arr0d" else o.append(mk()), o())[1])(JSONList(os.path.join(d, name + "_reset.json"))))
+print(json.dumps(out, sort_keys=True))
+"""
+
+
+def run_late_numpy():
+    """Two FRESH interpreters: numpy imported before the library is used vs the library used (on
+    ordinary values) before the application imports numpy; numpy values must then be classified,
+    converted and stored identically."""
+    import subprocess
+    import sys
+    base = env.scratch("vfzn")
+    outs = {}
+    for order in ("numpy_first", "library_first"):
+        p = subprocess.run([sys.executable, "-W", "ignore", "-c", LATE_NUMPY_SCRIPT, order, base],
+                           stdout=subprocess.PIPE, stderr=subprocess.PIPE, text=True, timeout=300)
+        if p.returncode != 0:
+            from ..classes import HarnessError
+            raise HarnessError("late-numpy child failed: " + p.stderr[-300:])
+        outs[order] = json.loads(p.stdout.strip().splitlines()[-1])
+    diff = {k: [outs["numpy_first"][k], outs["library_first"].get(k)] for k in outs["numpy_first"]
+            if outs["numpy_first"][k] != outs["library_first"].get(k)}
+    if diff:
+        return {"what": "classification_depends_on_history", "history": "library used before `import numpy`",
+                "differences": dict(list(diff.items())[:4]), "n_differences": len(diff)}, len(outs["numpy_first"])
+    return None, len(outs["numpy_first"])
+
 
 ID = "C19"
 LEVEL = "exploration"
@@ -223,11 +285,15 @@ POOL = [
     ("dyn_dict", lambda: _dyn("dict")), ("dyn_str", lambda: _dyn("str")), ("dyn_plain", lambda: _dyn("plain")),
     ("nested_list_with_np", lambda: [np.array([1, 2]), {"a": np.int64(1)}]),
     ("nested_dict_with_L", lambda: {"k": L([D(a=MySeq())])}),
+    # several hundred DISTINCT new types in one value (bounded memo tables must not forget what they
+    # cannot rebuild)
+    ("burst_list_types", lambda: [type("B%d" % i, (list,), {})([i]) for i in range(300)]),
+    ("burst_scalar_types", lambda: {"k%d" % i: type("N%d" % i, (int,), {})(i) for i in range(300)}),
 ]
 NAMES = [n for n, _ in POOL]
 N = len(POOL)
 # used as warm-up only: an instance that sabotages its own classification has no specified outcome
-NO_PROBE = {"weird_bad"}
+NO_PROBE = {"weird_bad", "burst_list_types", "burst_scalar_types"}   # used as warm-up only
 
 RESOLVERS = [
     ("sc", sc_mod._sc_resolver), ("collection", sc_mod._collection_resolver),
@@ -445,6 +511,7 @@ def shards(tier):
     s = [{"mode": "pairs", "part": i, "of": k} for i in range(k)]
     reps = 16 if tier == "quick" else 48
     s += [{"mode": "random", "rep": r} for r in range(reps)]
+    s += [{"mode": "late_numpy"}]
     return s
 
 
@@ -461,6 +528,14 @@ def run_shard(spec, seed, tier, active):
         acc.case([h64(case["probe"], sorted(case["warm"]))] if nt else (), case if nt else None,
                  {"warmup_len=" + str(min(len(case["warm"]), 6)): 1})
 
+    if spec["mode"] == "late_numpy":
+        d, nprobes = run_late_numpy()
+        case = {"property": ID, "engine": "late_numpy"}
+        for i in range(nprobes):
+            acc.case([h64("late_numpy", i)], case if i == 0 else None, {"late_numpy_probes": 1})
+        if d is not None:
+            acc.failures.append({"case": case, "desc": d})
+        return acc.result()
     if spec["mode"] == "pairs":
         pairs = [(a, b) for a in range(N) for b in range(N)]
         for j, (a, b) in enumerate(pairs):
@@ -499,6 +574,8 @@ def run_shard(spec, seed, tier, active):
 
 def replay(case):
     warnings.simplefilter("ignore")
+    if case.get("engine") == "late_numpy":
+        return run_late_numpy()[0]
     if _dir[0] is None:
         _dir[0] = env.scratch("vfz")
     return run_case(case)
